@@ -284,7 +284,7 @@ def kernels(tier):
     for pre in prefixes:
         for a in names:
             ks.append(("atomic", dict(device="virt_maxseq", prefix=pre, ops=[a])))
-        firsts = ["add_g", "delay_rest", "eom_on", "target", "align", "measure"] if quick else names
+        firsts = ["add_g", "delay_rest", "eom_on", "measure"] if quick else names
         for a in firsts:
             for b in names:
                 ks.append(("atomic", dict(device="virt_maxseq", prefix=pre, ops=[a, b])))
